@@ -28,6 +28,7 @@ type c20Case struct {
 	CI      bool       `json:"ci,omitempty"`
 	Env     string     `json:"env"`
 	Count   int        `json:"count,omitempty"` // seq: the whole history is executed Count times (what -count does), Clean sees -test.count=Count
+	Fault   int        `json:"fault,omitempty"` // kind "fault": the Fault-th file-system operation of the (single) call fails
 	Bound   int        `json:"bound,omitempty"`
 	Sched   []int      `json:"schedule,omitempty"`
 }
@@ -210,6 +211,16 @@ func c20Gen(c *vfCtx, emit func(c20Case)) {
 			}
 		}
 	}
+	// environment answers, one deviation: every single file-system operation of every kind of call fails in turn
+	for _, op := range c20Ops {
+		if !strings.Contains(op, ":") || strings.HasPrefix(op, "wfail:") {
+			continue
+		}
+		for k := 1; k <= 16; k++ {
+			emit(c20Case{Kind: "fault", Ops: []string{op}, Fault: k, Env: env})
+			emit(c20Case{Kind: "fault", Ops: []string{op}, Fault: k, Env: env, Stale: 2}) // a bigger file around the slot
+		}
+	}
 	// concurrent: ops issued from 2..3 threads, every schedule within the bound
 	if env == "" || c.thorough() {
 		thr := [][][]string{
@@ -327,6 +338,10 @@ func c20Run(c *vfCtx, cs c20Case) {
 		c20Conc(c, cs)
 		return
 	}
+	if cs.Kind == "fault" {
+		c20Fault(c, cs)
+		return
+	}
 	c.addSet("nontrivial", vfHashJSON(cs))
 	dir := c.newWorld()
 	names := c20Names(cs.Ops, "Op")
@@ -401,6 +416,69 @@ func c20Run(c *vfCtx, cs c20Case) {
 	removed := !cs.CI && (cs.Env == "true" || cs.Env == "clean")
 	if p := c20CheckSummary(out, want, staleT, staleF, removed); p != "" {
 		c.violation("", fmt.Sprintf("history %v then Clean: %s", cs.Ops, p), cs)
+	}
+}
+
+// c20Fault: one call, during which the k-th file-system operation fails with an I/O error. Whatever the environment answers,
+// the call ends in exactly one outcome and the counters record exactly that outcome (whether an `added`/`updated` claim made under
+// an I/O error is true is observed and counted, not judged: the property does not speak of it).
+func c20Fault(c *vfCtx, cs c20Case) {
+	op := cs.Ops[0]
+	dir := c.newWorld()
+	names := c20Names(cs.Ops, "Op")
+	c20Prepare(dir, names, cs.Ops)
+	c20Stale(dir, cs.Stale)
+	vfResetState(false, cs.Env, true)
+	t := &vfT{name: names[0]}
+	sched.ArmFault(cs.Fault)
+	got := c20Do(dir, names[0], op, t)
+	seen, hit := sched.Disarm()
+	t.end()
+	c.count("transitions", 1)
+	if hit == "" {
+		c.outcome(fmt.Sprintf("call has only %d operations", seen))
+		return // the call performs fewer than Fault operations: nothing was injected
+	}
+	c.addSet("nontrivial", vfHashJSON(cs))
+	c.addSet("states", vfHash(op, hit, got, fmt.Sprint(vfHashDir(vfSnapDir(dir)))))
+	c.outcome("fault:" + got)
+	c.count("faults_injected", 1)
+	ev := map[string]uint8{"passed": passed, "added": added, "updated": updated, "failed": erred}
+	code, ok := ev[got]
+	if !ok {
+		c.violation("", fmt.Sprintf("%s with %s failing (operation %d): %s", op, hit, cs.Fault, got), cs)
+		return
+	}
+	total := 0
+	for _, n := range testEvents.items {
+		total += n
+	}
+	if total != 1 || testEvents.items[code] != 1 {
+		c.violation("", fmt.Sprintf("%s with %s failing (operation %d): the call signalled %s to the test, the outcome counters hold %v", op, hit, cs.Fault, got, testEvents.items), cs)
+		return
+	}
+	if got == "added" || got == "updated" {
+		// the call claims the value is stored: a later run must replay it
+		api, k := op[:strings.Index(op, ":")], op[strings.Index(op, ":")+1:]
+		val, neu := c20Vals(api)
+		if k != "pass" {
+			val = neu // the value the call was given (c20Do)
+		}
+		cl := vfCall{API: api, Val: val}
+		if api == "snapg" {
+			cl = vfCall{API: "snap", Val: val, File: "g"}
+		}
+		vfResetState(true, "", true)
+		t2 := &vfT{name: names[0]}
+		mk := t2.mark()
+		cl.do(t2, dir)
+		t2.end()
+		if o := t2.outcome(mk); o != "pass" {
+			// observed, not judged: C20 speaks of the number of outcomes, not of their truth under I/O errors. On the pinned tree a
+			// read error of the snapshot file is taken for "no snapshot yet": a duplicate entry is appended and `added` is signalled.
+			c.count("observed_claim_does_not_replay_after_io_error", 1)
+			c.outcome(fmt.Sprintf("observed: %s after %s failing, value does not replay", got, hit))
+		}
 	}
 }
 
